@@ -1408,6 +1408,24 @@ fn push_error(
     }
 }
 
+/// `method` is a notification, but a message that carries an id is a
+/// request: the client is waiting on a response, so tell it that the
+/// request is invalid.
+fn push_notification_id_error(
+    outgoing: &mut Vec<serde_json::Value>,
+    id: Option<serde_json::Value>,
+    method: &str,
+) {
+    if let Some(id) = id {
+        push_error(
+            outgoing,
+            id,
+            ErrorCodes::InvalidRequest,
+            format!("{method} is a notification, it should not have an id."),
+        );
+    }
+}
+
 /// Parse the params of a request and call `handler`, appending the
 /// response to the outgoing messages. If the params don't parse,
 /// respond with an invalid params error.
@@ -1483,6 +1501,7 @@ fn handle_message(
         }
         Some("initialized") => {
             // This is a notification, no response needed
+            push_notification_id_error(&mut outgoing, parsed.id, "initialized");
         }
         Some("textDocument/completion") => {
             if let Some(id) = parsed.id {
@@ -1597,14 +1616,17 @@ fn handle_message(
         Some("textDocument/didOpen") => {
             let params = message.get("params").unwrap_or(&serde_json::Value::Null);
             outgoing.extend(handle_did_open(params, documents));
+            push_notification_id_error(&mut outgoing, parsed.id, "textDocument/didOpen");
         }
         Some("textDocument/didChange") => {
             let params = message.get("params").unwrap_or(&serde_json::Value::Null);
             outgoing.extend(handle_did_change(params, documents));
+            push_notification_id_error(&mut outgoing, parsed.id, "textDocument/didChange");
         }
         Some("textDocument/didClose") => {
             let params = message.get("params").unwrap_or(&serde_json::Value::Null);
             outgoing.extend(handle_did_close(params, documents));
+            push_notification_id_error(&mut outgoing, parsed.id, "textDocument/didClose");
         }
         Some("shutdown") => {
             if let Some(id) = parsed.id {
@@ -1614,6 +1636,7 @@ fn handle_message(
         }
         Some("exit") => {
             // Exit notification
+            push_notification_id_error(&mut outgoing, parsed.id, "exit");
             action = Action::Exit;
         }
         Some(method) => {
